@@ -86,11 +86,42 @@ pub fn res_opt(r: Option<usize>) -> i64 {
     }
 }
 
+thread_local! {
+    /// the values that did not fit the verbatim range since the last `raw_clear`, in call order
+    static RAWS: std::cell::RefCell<Vec<usize>> = const { std::cell::RefCell::new(Vec::new()) };
+}
+
+pub fn raw_clear() {
+    RAWS.with(|r| r.borrow_mut().clear());
+}
+
+pub fn raw_take() -> Vec<usize> {
+    RAWS.with(|r| std::mem::take(&mut *r.borrow_mut()))
+}
+
 pub fn res_val(v: usize) -> i64 {
     if (v as u128) <= INT_MAX {
         v as i64
     } else {
+        RAWS.with(|r| {
+            let mut r = r.borrow_mut();
+            if r.len() < 64 {
+                r.push(v);
+            }
+        });
         HUGE_RES
+    }
+}
+
+/// a result code as a limb list: the value itself when it was too large for the verbatim range
+pub fn res_big(code: i64, raws: &mut std::vec::IntoIter<usize>) -> Value {
+    match code {
+        c if c >= 0 => sym(c as u128),
+        HUGE_RES => match raws.next() {
+            Some(v) => sym(v as u128),
+            None => json!([NA]),
+        },
+        c => json!([c]),
     }
 }
 
